@@ -20,4 +20,14 @@ with open(os.path.join(V, "seeded", "INDEX.md"), "w") as o:
             "| id | property | change | needs | confirmed | caught by | not caught by | history |\n|---|---|---|---|---|---|---|---|\n")
     for r in rows:
         o.write("| " + " | ".join(str(x) for x in r) + " |\n")
-print("%d seeds, %d caught by their property's check" % (len(rows), sum(1 for r in rows if r[5] != "-")))
+    hs = sorted(glob.glob(os.path.join(V, "seeded", "harmless", "H*", "meta.json")), key=lambda f: int(os.path.basename(os.path.dirname(f))[1:]))
+    if hs:
+        o.write("\n## Behaviour-preserving refactorings (must raise no alarm)\n\nProduced by an independent sub-agent from the 20 property texts; each keeps the "
+                "77 passing tests and was shown observation-identical to the original by its own differential driver (`diff.py`). `tools/harmless.sh Hk` "
+                "applies the patch to a scratch worktree and runs the quick tier of every property whose anchored code it touches (the source "
+                "fingerprints differ, so the thorough tier's cases are generated).\n\n| id | refactoring | site | checks run (result) |\n|---|---|---|---|\n")
+        for f in hs:
+            m = json.load(open(f))
+            o.write("| %s | %s | %s | %s |\n" % (os.path.basename(os.path.dirname(f)), m.get("title", "").replace("|", "/")[:260],
+                                                   m.get("site", "").replace("|", "/")[:160], m.get("check_results", "not run")))
+print("%d seeds, %d caught by at least one check" % (len(rows), sum(1 for r in rows if r[5] != "-")))
